@@ -194,21 +194,24 @@ int main(int argc, char** argv) {
             if (o.s != "throw std::invalid_argument") out.fail("init-zero-vector", "GenEigsSolver::init(zero vector): " + o.s, "{\"op\":\"init0\",\"class\":\"sigma\"}");
             if (o.leaked) out.fail("init-zero-leak", "GenEigsSolver::init(zero vector) leaks", "{\"op\":\"init0\",\"class\":\"sigma\"}"); }
         // ---- unsupported rules at compute(): invalid_argument and nothing leaked (all nine values, selection and sorting)
-        for (int r = 0; r < 9; r++) {
-            {   DenseSymMatProd<double> op(A); SymEigsSolver<DenseSymMatProd<double>> s(op, 2, 5); s.init();
+        // every (nev, ncv) shape class of n = 6 incl. nev = 1 and the smallest legal ncv, with maxit = 0 and maxit > 0:
+        // the rule whitelist must not depend on the configuration
+        for (int nv = 1; nv <= 3; nv++) for (int extra = 1; extra <= 3; extra += 2) for (long mi : {0L, 50L}) for (int r = 0; r < 9; r++) {
+            const int cvh = std::min(n, nv + extra), cvg = std::min(n, nv + 1 + extra); const std::string cfgj = ",\"nev\":" + str(nv) + ",\"extra\":" + str(extra) + ",\"maxit\":" + str(mi);
+            {   DenseSymMatProd<double> op(A); SymEigsSolver<DenseSymMatProd<double>> s(op, nv, cvh); s.init();
                 bool wsel = (r == 0 || r == 3 || r == 4 || r == 7 || r == 8), wsort = (r == 0 || r == 3 || r == 4 || r == 7);
-                auto o1 = attempt([&]() { s.compute((SortRule) r, 50, 1e-8, SortRule::LargestAlge); }); out.count("oracle_rules");
-                if ((o1.s == "ok") != wsel || (!wsel && o1.s != "throw std::invalid_argument")) out.fail("rule-dispatch", "SymEigsSolver selection rule " + str(r) + ": " + o1.s, "{\"op\":\"rule\",\"class\":\"sigma\",\"rule\":" + str(r) + "}");
-                s.init(); auto o2 = attempt([&]() { s.compute(SortRule::LargestAlge, 50, 1e-8, (SortRule) r); });
-                if ((o2.s == "ok") != wsort || (!wsort && o2.s != "throw std::invalid_argument")) out.fail("rule-dispatch", "SymEigsSolver sorting rule " + str(r) + ": " + o2.s, "{\"op\":\"rule\",\"class\":\"sigma\",\"rule\":" + str(r) + "}");
-                if (o1.leaked || o2.leaked) out.fail("rule-leak", "SymEigsSolver::compute with rule " + str(r) + " leaks", "{\"op\":\"rule\",\"class\":\"sigma\",\"rule\":" + str(r) + "}"); }
-            {   Mat G = genmat(n); DenseGenMatProd<double> op(G); GenEigsSolver<DenseGenMatProd<double>> s(op, 2, 5); s.init();
+                auto o1 = attempt([&]() { s.compute((SortRule) r, mi, 1e-8, SortRule::LargestAlge); }); out.count("oracle_rules");
+                if ((o1.s == "ok") != wsel || (!wsel && o1.s != "throw std::invalid_argument")) out.fail("rule-dispatch", "SymEigsSolver selection rule " + str(r) + " (nev=" + str(nv) + ", ncv=nev+" + str(extra) + "(+1 gen), maxit=" + str(mi) + "): " + o1.s, "{\"op\":\"rule\",\"class\":\"sigma\",\"rule\":" + str(r) + cfgj + "}");
+                s.init(); auto o2 = attempt([&]() { s.compute(SortRule::LargestAlge, mi, 1e-8, (SortRule) r); });
+                if ((o2.s == "ok") != wsort || (!wsort && o2.s != "throw std::invalid_argument")) out.fail("rule-dispatch", "SymEigsSolver sorting rule " + str(r) + " (nev=" + str(nv) + ", ncv=nev+" + str(extra) + "(+1 gen), maxit=" + str(mi) + "): " + o2.s, "{\"op\":\"rule\",\"class\":\"sigma\",\"rule\":" + str(r) + cfgj + "}");
+                if (o1.leaked || o2.leaked) out.fail("rule-leak", "SymEigsSolver::compute with rule " + str(r) + " leaks", "{\"op\":\"rule\",\"class\":\"sigma\",\"rule\":" + str(r) + cfgj + "}"); }
+            {   Mat G = genmat(n); DenseGenMatProd<double> op(G); GenEigsSolver<DenseGenMatProd<double>> s(op, nv, cvg); s.init();
                 bool w = (r == 0 || r == 1 || r == 2 || r == 4 || r == 5 || r == 6);
-                auto o1 = attempt([&]() { s.compute((SortRule) r, 50, 1e-8, SortRule::LargestMagn); }); out.count("oracle_rules");
-                if ((o1.s == "ok") != w || (!w && o1.s != "throw std::invalid_argument")) out.fail("rule-dispatch", "GenEigsSolver selection rule " + str(r) + ": " + o1.s, "{\"op\":\"rule\",\"class\":\"sigma\",\"rule\":" + str(r) + "}");
-                s.init(); auto o2 = attempt([&]() { s.compute(SortRule::LargestMagn, 50, 1e-8, (SortRule) r); });
-                if ((o2.s == "ok") != w || (!w && o2.s != "throw std::invalid_argument")) out.fail("rule-dispatch", "GenEigsSolver sorting rule " + str(r) + ": " + o2.s, "{\"op\":\"rule\",\"class\":\"sigma\",\"rule\":" + str(r) + "}");
-                if (o1.leaked || o2.leaked) out.fail("rule-leak", "GenEigsSolver::compute with rule " + str(r) + " leaks", "{\"op\":\"rule\",\"class\":\"sigma\",\"rule\":" + str(r) + "}"); }
+                auto o1 = attempt([&]() { s.compute((SortRule) r, mi, 1e-8, SortRule::LargestMagn); }); out.count("oracle_rules");
+                if ((o1.s == "ok") != w || (!w && o1.s != "throw std::invalid_argument")) out.fail("rule-dispatch", "GenEigsSolver selection rule " + str(r) + " (nev=" + str(nv) + ", ncv=nev+" + str(extra) + "(+1 gen), maxit=" + str(mi) + "): " + o1.s, "{\"op\":\"rule\",\"class\":\"sigma\",\"rule\":" + str(r) + cfgj + "}");
+                s.init(); auto o2 = attempt([&]() { s.compute(SortRule::LargestMagn, mi, 1e-8, (SortRule) r); });
+                if ((o2.s == "ok") != w || (!w && o2.s != "throw std::invalid_argument")) out.fail("rule-dispatch", "GenEigsSolver sorting rule " + str(r) + " (nev=" + str(nv) + ", ncv=nev+" + str(extra) + "(+1 gen), maxit=" + str(mi) + "): " + o2.s, "{\"op\":\"rule\",\"class\":\"sigma\",\"rule\":" + str(r) + cfgj + "}");
+                if (o1.leaked || o2.leaked) out.fail("rule-leak", "GenEigsSolver::compute with rule " + str(r) + " leaks", "{\"op\":\"rule\",\"class\":\"sigma\",\"rule\":" + str(r) + cfgj + "}"); }
         }
     }
     out.finish();
